@@ -205,15 +205,34 @@ static Obs run_once(const Op& op, G a, G b, double p1, int p2, const std::string
     o.wkb_same = (hexwkb(a) == wa) && (!b || hexwkb(b) == wb);
     return o;
 }
+// Results of never-interrupted runs of the current case. Some operations are not functions of their input on this tree (random insertion
+// order in HotPixelIndex -> sign of zero; heap-address ordering): a result that differs from the first reference is compared with further
+// never-interrupted, callback-free runs before it is called different ('r' / 'd'); if it is one of them the flag is 'v' (varies by itself).
+static std::set<std::string> refs; static int extra_runs = 0;
+static const Op* cur_op; static G cur_a, cur_b; static double cur_p1; static int cur_p2;
+static bool is_ref(const std::string& canon, bool& varies) {
+    varies = false;
+    if (refs.count(canon)) { varies = refs.size() > 1; return true; }
+    GEOSInterruptCallback* prev = GEOS_interruptRegisterCallback(nullptr);
+    bool was = geos::util::Interrupt::check(); if (was) GEOS_interruptCancel();
+    bool found = false;
+    for (int i = 0; i < 8 && !found && extra_runs < 64; i++) { extra_runs++; Res r = cur_op->f(cur_a, cur_b, cur_p1, cur_p2); refs.insert(r.canon); found = (r.canon == canon); }
+    if (was) GEOS_interruptRequest();
+    GEOS_interruptRegisterCallback(prev);
+    varies = found; return found;
+}
 static std::string code(const Obs& o, const Obs* rerun, const std::string& ref, bool leak) {
     std::string c = o.err ? "A" : "C";
     if (o.err && !o.msg_ok) c += "m";
     if (o.flag) c += "f";
     c += "p" + std::to_string(o.inv);
     if (!o.wkb_same) c += "w";
-    if (!o.err && o.res.canon != ref) c += "d";
-    if (rerun) { if (rerun->err || rerun->res.canon != ref) c += "r"; c += "n" + std::to_string(rerun->inv); if (rerun->flag) c += "F"; if (!rerun->wkb_same) c += "W"; }
+    bool v = false, anyv = false;
+    if (!o.err && !is_ref(o.res.canon, v)) c += "d";
+    anyv |= v;
+    if (rerun) { if (rerun->err || !is_ref(rerun->res.canon, v)) c += "r"; anyv |= v; c += "n" + std::to_string(rerun->inv); if (rerun->flag) c += "F"; if (!rerun->wkb_same) c += "W"; }
     if (leak) c += "L";
+    if (anyv) c += "v";
     return c;
 }
 
@@ -236,16 +255,18 @@ int main(int argc, char** argv) {
         std::string wa = hexwkb(A), wb = B ? hexwkb(B) : "";
         // never-interrupted reference, no callback registered at all
         target = -1; cancel_too = 0; record_sites = false;
+        cur_op = op; cur_a = A; cur_b = B; cur_p1 = p1; cur_p2 = p2; refs.clear(); extra_runs = 0;
         Obs ref0 = run_once(*op, A, B, p1, p2, wa, wb);
-        std::string ref = ref0.res.canon;
-        Obs ref1 = run_once(*op, A, B, p1, p2, wa, wb);
-        bool nd = ref1.res.canon != ref;          // the operation itself is not a function of its input (nothing to do with interrupts)
+        std::string ref = ref0.res.canon; refs.insert(ref);
+        Obs ref1 = run_once(*op, A, B, p1, p2, wa, wb); refs.insert(ref1.res.canon);
         // counting callback that never requests
         GEOS_interruptRegisterCallback(cb); sites.clear(); record_sites = true;
         Obs cnt = run_once(*op, A, B, p1, p2, wa, wb); long N = cnt.inv; record_sites = false;
         Obs cnt2 = run_once(*op, A, B, p1, p2, wa, wb);
-        bool cbsame = (cnt.res.canon == ref) && (cnt.err == ref0.err) && cnt.wkb_same && !cnt.flag;
-        bool det = cnt2.inv == N && cnt2.res.canon == ref;
+        bool v1 = false, v2 = false;
+        bool cbsame = is_ref(cnt.res.canon, v1) && (cnt.err == ref0.err) && cnt.wkb_same && !cnt.flag;
+        bool det = cnt2.inv == N && is_ref(cnt2.res.canon, v2);
+        bool nd = refs.size() > 1;                // the operation itself is not a function of its input (nothing to do with interrupts)
         printf("N=%ld nocb=%s nd=%d cbsame=%d det=%d ref=%016llx", N, ref0.err ? "E" : "R", nd ? 1 : 0, cbsame ? 1 : 0, det ? 1 : 0, (unsigned long long)fnv(ref));
         std::vector<std::string> stacks;
         if (ks != "count") {
